@@ -49,10 +49,15 @@ class Block(DfBase[ops.DataflowBlock]):
             # note this just checks if there is a common CFG ancestor
             # it does not check for valid dominance between basic blocks
             # that is deferred to full HUGR validation.
+            src_block = src_parent
             while cfg_node != src_parent:
                 if src_parent is None or src_parent == self.hugr.root:
                     raise NotInSameCfg(src.node.idx, node.idx) from e
                 src_parent = self.hugr[src_parent].parent
+            # the source must sit directly in another block of this CFG, not in
+            # a region nested below one
+            if src_block is None or self.hugr[src_block].parent != cfg_node:
+                raise
 
             self.hugr.add_link(src, node.inp(offset))
         return self._get_dataflow_type(src)
